@@ -250,6 +250,13 @@ def exactOut (m : Readers.ROut) (recs : List ObsRec) : Bool :=
       | none => !o.isTree
   | _ => true
 
+/-- the non-triviality rule (DESIGN App. C: "not rejected at the first token"): the text readers got past
+    their first token (decided by the Lean model), the XML / JSON decoders accepted the document -/
+def pastFirst (fmt bufsize : String) (bytes : List UInt8) (decoded : String) : Bool :=
+  match fmt with
+  | "phyloxml" | "phyloxmlm" | "nextstrain" | "nextstrainm" => decoded != "E" && decoded != ""
+  | _ => bytes.length > 0 && (modelInfo fmt bufsize bytes).2
+
 def bufSize' (s : String) : Nat := match s.toNat? with | some n => if n < 16 then 4096 else n | none => 4096
 
 /-- obs_P of a reader entry point on the given bytes: the model(s) against the implementation -/
@@ -264,10 +271,7 @@ def tieModel (fmt bufsize : String) (bytes : List UInt8) (decoded outcome : Stri
       | some o => (tieOut o outcome recs).map ("C01 " ++ ·)
       | none => none
   | "multi" =>
-    -- the records travel through the channel model under a schedule derived from the input
-    match Readers.multiNewick (Readers.chunksOf (bufSize' bufsize) bytes) with
-    | .ok rs => tieOut (.ok (Chan.simulate (Chan.schedOf 48 (bytes.foldl (fun a b => a * 31 + b.toNat) 7)) rs).got) outcome recs
-    | o => tieOut o outcome recs
+    tieOut (Readers.multiNewick (Readers.chunksOf (bufSize' bufsize) bytes)) outcome recs
   | "nexus" => tieOut (Readers.nexusOne bytes) outcome recs
   | "nexusm" => tieOut (Readers.nexusMulti bytes) outcome recs
   | _ => tieDecoded fmt decoded outcome recs
@@ -323,14 +327,14 @@ def handle (op : String) (f : List String) : Verdict :=
         tagIf (trees.any (·.use == "err")) "use-err" ++
         tagIf (decoded == "E") "decoder-err" ++
         (let mi := modelInfo fmt bufsize bytes
-         mi.1 ++ tagIf (bytes.length > 0 && mi.2 && (trees.length ≥ 1 || bytes.length ≥ 8 || decoded == "")) "nontrivial")
+         mi.1 ++ tagIf (pastFirst fmt bufsize bytes decoded) "nontrivial")
       if !(readOK outcome recs) then
-        ⟨.oracle, tags, "reader outcome " ++ short outcome ++ " / use " ++ short (",".intercalate (trees.map (·.use)))⟩
+        ⟨.oracle, tags, "reader outcome " ++ short outcome ++ " / use " ++ short (",".intercalate (recs.map (·.use)))⟩
       else
         -- tie of the use model: class of ReinitIndexes on every delivered tree
         let bad := trees.filter fun r =>
           match T.undump r.dump with
-          | some t => (reinit t).str != r.use || walkAll t != .ok
+          | some t => (reinit t).str != r.use
           | none => false   -- non-finite numbers: shape not comparable
         match bad with
         | r :: _ => ⟨.tie, tags, "model reinit differs on " ++ short r.dump⟩
@@ -353,11 +357,12 @@ def handle (op : String) (f : List String) : Verdict :=
             ⟨.pass, tags ++ fid, ""⟩
           | some d => ⟨.tie, tags, d⟩
     | _, _ => bad "C02.read fields"
-  | "cli", [flag, input, outcome, _nl, transport] =>
+  | "cli", [flag, input, outcome, _nl, transport, decoded] =>
     match unescapeToBytes input with
     | some bytes =>
       let fmt := Readers.formatOfFlag flag
-      let tags := ["cli", "cli-" ++ fmt, "cli-via-" ++ transport, "nontrivial"] ++ tagIf (fmt != flag) "cli-format-defaulted"
+      let tags := ["cli", "cli-" ++ fmt, "cli-via-" ++ transport] ++ tagIf (fmt != flag) "cli-format-defaulted" ++
+        tagIf (pastFirst (if fmt == "newick" then "multi" else fmt) "0" bytes decoded) "nontrivial"
       if !(outcomeAllowed outcome) then ⟨.oracle, tags, "gotree reformat newick --format " ++ fmt ++ ": " ++ short outcome⟩
       else
         -- the command stops with an error at the first record that carries one
@@ -371,23 +376,35 @@ def handle (op : String) (f : List String) : Verdict :=
           match fmt with
           | "newick" => some (cls (Readers.multiNewick (Readers.chunksOf 4096 bytes)))
           | "nexus" => some (cls (Readers.nexusMulti bytes))
+          | "phyloxml" =>
+            (match parsePx decoded with
+             | some none => some "err"
+             | some (some ps) => some (cls (Readers.phyloxmlMulti ps))
+             | none => none)
+          | "nextstrain" =>
+            (match parseNsDoc decoded with
+             | some none => some "err"
+             | some (some (v, n)) => some (cls (Readers.nextstrainMulti v n))
+             | none => none)
           | _ => none
         match m with
         | some c => if c == outcome then ⟨.pass, tags, ""⟩ else ⟨.tie, tags, "model: " ++ c⟩
         | none => ⟨.pass, tags, ""⟩
     | none => bad "C02.cli input"
   | "clicmd", [cmd, fmt, _input, outcome] =>
-    let tags := ["cli", "clicmd", "cli-" ++ fmt, "nontrivial", "cliout-" ++ (if outcomeAllowed outcome then outcome else "crash")]
+    let tags := ["cli", "clicmd", "cli-" ++ fmt, "cliout-" ++ (if outcomeAllowed outcome then outcome else "crash")] ++
+      tagIf (outcome == "ok") "nontrivial"
     if outcomeAllowed outcome then ⟨.pass, tags, ""⟩
     else ⟨.oracle, tags, "gotree " ++ (unescape cmd).getD cmd ++ " --format " ++ fmt ++ " on a malformed / degenerate input: " ++ short outcome⟩
   | "file", [mode, fmt, _input, outcome, recsS, decoded, openok, effective] =>
     match unescapeToBytes effective, parseRecs recsS with
     | some bytes, some recs =>
       let trees := recs.filter (·.isTree)
-      let tags := ["file", "file-" ++ mode, "file-" ++ fmt, "nontrivial", "out-" ++ (if outcomeAllowed outcome then outcome else "crash")] ++
+      let tags := ["file", "file-" ++ mode, "file-" ++ fmt, "out-" ++ (if outcomeAllowed outcome then outcome else "crash")] ++
+        tagIf (openok == "open" && pastFirst fmt "0" bytes decoded) "nontrivial" ++
         tagIf (trees.length ≥ 1) "delivered" ++ tagIf (openok == "noopen") "file-noopen"
       if !(readOK outcome recs) then
-        ⟨.oracle, tags, "file-level reader (" ++ mode ++ "): outcome " ++ short outcome ++ " / use " ++ short (",".intercalate (trees.map (·.use)))⟩
+        ⟨.oracle, tags, "file-level reader (" ++ mode ++ "): outcome " ++ short outcome ++ " / use " ++ short (",".intercalate (recs.map (·.use)))⟩
       else if openok == "noopen" then
         -- a missing file / a file that is not gzip: the entry point reports the error of GetReader
         (if outcome == "err" && recs.isEmpty then ⟨.pass, tags, ""⟩ else ⟨.tie, tags, "model: the file cannot be opened, err"⟩)
@@ -400,10 +417,11 @@ def handle (op : String) (f : List String) : Verdict :=
     match unescapeToBytes input, parseRecs recsS with
     | some _, some recs =>
       let trees := recs.filter (·.isTree)
-      let tags := ["dec", "dec-" ++ fmt, "nontrivial", "out-" ++ (if outcomeAllowed outcome then outcome else "crash")] ++
+      let tags := ["dec", "dec-" ++ fmt, "out-" ++ (if outcomeAllowed outcome then outcome else "crash")] ++
+        tagIf (decodedGo != "E") "nontrivial" ++
         tagIf (expected == "E") "dec-corrupted" ++ tagIf (trees.length ≥ 1) "delivered" ++ ["deckind-" ++ kind]
       if !(readOK outcome recs) then
-        ⟨.oracle, tags, "reader outcome " ++ short outcome ++ " / use " ++ short (",".intercalate (trees.map (·.use)))⟩
+        ⟨.oracle, tags, "reader outcome " ++ short outcome ++ " / use " ++ short (",".intercalate (recs.map (·.use)))⟩
       else if decodedGo != expected then
         ⟨.tie, tags, "the decoder does not give the generator's structure: " ++ short decodedGo⟩
       else
